@@ -166,8 +166,12 @@ def is_float(v) -> bool:
 
 class Machine:
     def __init__(self, generic=False, budget=200000, lenient_uninit=False, record_access=False,
-                 lenient_overflow=False):
+                 lenient_overflow=False, lenient_redeclare=False):
         self.generic = generic
+        # lenient_redeclare: a second declaration of a name in the same scope (invalid C) is recorded as an
+        # event and the run continues with the one slot per name that the LLVM back end's hoisting gives it,
+        # so that the value and structure oracles still judge what the default back end computes
+        self.lenient_redeclare = lenient_redeclare
         self.budget = budget
         self.lenient_uninit = lenient_uninit
         # lenient_overflow: record the int32 overflow as an event and continue with the wrapped
@@ -470,6 +474,9 @@ class Machine:
         scope = self.scopes[-1]
         for n, _ in scope:
             if n == name:
+                if self.lenient_redeclare:
+                    self.events.append(("redeclared", name))
+                    return self.env[name]
                 raise Fault("redeclared", f"variable {name} redeclared in the same scope")
         prev = self.env.get(name)
         scope.append((name, prev))
